@@ -455,4 +455,24 @@ theorem tunnel_endpoint_send_conserves_partial (evs : List (Bool × (Nat × Nat)
     destination, the current one first -/
 example : ((TEp.run {} [(false, (1, 10)), (false, (2, 20)), (true, (3, 30))]).out = [(3, 30), (1, 10), (2, 20)]) := by decide
 
+/-! ### exit policy at the protocol's minimum sizes; independence of exit sockets -/
+
+/-- the shortest UDP-tracker datagram (8 bytes: action 0..3 + transaction id) counts as BitTorrent traffic, so a BT exit lets it
+    out and lets it back in (`is_allowed` is applied in both directions) -/
+theorem tracker_min_size_allowed (pfx d : Bytes) (ipv8 : Bool) (h8 : d.length = 8) (ha : actionAt d 0 = true) :
+    exitAllows true ipv8 pfx d = true := by
+  simp [exitAllows, couldBeBt, couldBeTracker, h8, ha]
+
+example : exitAllows true false [] [0, 0, 0, 3, 9, 9, 9, 9] = true := by decide
+example : exitAllows true false [] [0, 0, 0, 3, 9, 9, 9] = false := by decide
+
+/-- an event at the exit socket of one circuit leaves the exit sockets of all other circuits (queue, pending resolutions,
+    transports, emitted datagrams) untouched -/
+theorem exit_sockets_independent (dns : Nat → Nat) (ms : XMulti) (cid other : Nat) (ev : XEv) (h : other ≠ cid) (x : XSock)
+    (hx : (other, x) ∈ ms) : (other, x) ∈ XMulti.step dns ms cid ev := by
+  simp only [XMulti.step, List.mem_map]
+  refine ⟨(other, x), hx, ?_⟩
+  have : (other == cid) = false := by simpa using h
+  simp [this]
+
 end Ipv8.C04
